@@ -34,6 +34,7 @@ type simConn struct {
 	rdl    time.Time
 	wdl    time.Time
 	stall  bool // broker stopped reading: writes block until the write deadline
+	closing bool // server closed its end; pending data still to be delivered
 
 	// server side (kernel only)
 	queue      [][]byte
@@ -42,8 +43,19 @@ type simConn struct {
 	lastDeliv  time.Time
 	written    int // complete request frames written by the client
 	answered   int // responses fully delivered into the read buffer
+	failed     int // written requests whose call already returned an error
+	dialUs     int64
+	sawError   bool // a Read/Write already returned an error to the client
+	deliveredCorr map[int32]bool // correlation ids of responses put into the client's read buffer
+	poisoned   bool // the server injected a garbage response on this connection
 	expectResp int // requests written that expect a response and are unanswered (C14)
 	noResp     map[int]bool
+}
+
+func (c *simConn) markErr() {
+	c.mu.Lock()
+	c.sawError = true
+	c.mu.Unlock()
 }
 
 func (c *simConn) signal() {
@@ -68,6 +80,7 @@ func (c *simConn) Read(p []byte) (int, error) {
 		}
 		if c.reset {
 			c.mu.Unlock()
+			c.markErr()
 			if c.eof {
 				return 0, io.EOF
 			}
@@ -81,6 +94,7 @@ func (c *simConn) Read(p []byte) (int, error) {
 		}
 		d := time.Until(dl)
 		if d <= 0 {
+			c.markErr()
 			return 0, &net.OpError{Op: "read", Net: "tcp", Err: os.ErrDeadlineExceeded}
 		}
 		t := time.NewTimer(d)
@@ -160,6 +174,17 @@ func (c *simConn) serverClose(eof bool) {
 	c.signal()
 }
 
+// serverCloseOrdered: orderly close (FIN): everything the server sent before is delivered first.
+func (c *simConn) serverCloseOrdered(k *kernel) {
+	at := time.Now().Add(k.latency())
+	if at.Before(c.lastDeliv) {
+		at = c.lastDeliv
+	}
+	c.lastDeliv = at
+	c.closing = true
+	k.after(time.Until(at), func() { c.serverClose(true) })
+}
+
 func (c *simConn) isDead() bool {
 	c.mu.Lock()
 	defer c.mu.Unlock()
@@ -211,6 +236,9 @@ func (d *dialer) Dial(network, a string) (net.Conn, error) {
 	if br == nil {
 		time.Sleep(lat)
 		cl.k.logf("dial %s: no such host", a)
+		if cl.onDialFail != nil {
+			cl.onDialFail()
+		}
 		return nil, &net.OpError{Op: "dial", Net: "tcp", Err: fmt.Errorf("lookup %s: no such host", a)}
 	}
 	cl.mu.Lock()
@@ -224,17 +252,23 @@ func (d *dialer) Dial(network, a string) (net.Conn, error) {
 		R.fired("dial-timeout")
 		time.Sleep(to)
 		cl.k.logf("dial %s: timeout", a)
+		if cl.onDialFail != nil {
+			cl.onDialFail()
+		}
 		return nil, &net.OpError{Op: "dial", Net: "tcp", Err: os.ErrDeadlineExceeded}
 	}
 	time.Sleep(lat)
 	if !up {
 		R.fired("refuse")
 		cl.k.logf("dial %s: refused", a)
+		if cl.onDialFail != nil {
+			cl.onDialFail()
+		}
 		return nil, &net.OpError{Op: "dial", Net: "tcp", Err: syscall.ECONNREFUSED}
 	}
 	cl.mu.Lock()
 	cl.nConn++
-	c := &simConn{id: cl.nConn, k: cl.k, cl: cl, br: br, notify: make(chan struct{}, 1), noResp: map[int]bool{}}
+	c := &simConn{id: cl.nConn, k: cl.k, cl: cl, br: br, notify: make(chan struct{}, 1), noResp: map[int]bool{}, dialUs: cl.k.nowUs()}
 	br.conns = append(br.conns, c)
 	cl.mu.Unlock()
 	cl.k.logf("dial %s ok c%d", a, c.id)
